@@ -864,6 +864,13 @@ def _mk_simple(kind, n, edges):
     if kind == 'nx':
         G.add_nodes_from(range(1, n + 1))
         G.add_edges_from(edges)
+    elif kind == 'nxloop':
+        # a networkx graph with self-loops (not a simple graph): whatever the
+        # generator makes of it, the caller's graph keeps them
+        G.add_nodes_from(range(1, n + 1))
+        G.add_edges_from(edges)
+        for v in range(1, n + 1, 2):
+            G.add_edge(v, v)
     elif kind == 'nxodd':
         # labels a parser or a file format may treat specially: backslash-n
         # (two characters), the empty string, blanks, a digit string, a keyword
@@ -1101,7 +1108,7 @@ def graph_cases(tier):
     if thorough:
         bsizes += [(3, 2), (2, 3), (3, 1), (1, 3)]
     bips = [(L, Rr, [list(e) for e in es]) for (L, Rr) in bsizes for es in scope.bipartite_graphs(L, Rr)]
-    skinds = ['cnfgen', 'nx', 'named', 'nxs', 'nxodd']
+    skinds = ['cnfgen', 'nx', 'named', 'nxs', 'nxodd', 'nxloop']
     classes = ['CNF', 'OPB']
     fams = _graph_fams()
     cs = []
